@@ -29,7 +29,7 @@ RULE = ("generated histories of 3-25 events over {connect request (established /
         "once or held back so that the connection is still being established when the next event arrives), a server reply that fails authentication (optionally with one more frame behind it in the same read), peer close, disconnect "
         "request (only while up or being established), server reply, success, (failure, stream error and peer close optionally with the first "
         "bytes of a further, never completed frame in the same read), failure, stream error (conflict / ack / xml-not-well-formed, with or without text), keep-alive tick (virtual "
-        "clock, one second at a time), pong for a chosen outstanding ping, late pong for a ping of an earlier connection, application send (also one that stays unwritten in the dispatcher's buffer before the peer resets the connection), loop runs} with options {reconnect on "
+        "clock, one second at a time), pong for a chosen outstanding ping, late pong for a ping of an earlier connection, application send (also one that stays unwritten in the dispatcher's buffer before the peer resets the connection), loop runs} ; a sub-case over the network layer alone with an asynchronous dispatcher double separates connect request, established, refused, a connect() that raises, peer close, disconnect request, data and send (requests through the event and through the layer interface)} with options {reconnect on "
         "stream error on/off, ping interval 1-3 s, passive}; the history is closed out (connection closed, loop run until no deferred "
         "callback is left) before the top-level counts are compared. Non-trivial = at least 2 established connections in the history, "
         "or a keep-alive decision (a tick with a ping outstanding, or a pong). Distinct = distinct canonical JSON.")
